@@ -20,6 +20,7 @@ func init() {
 			"(R1) the signal channel has capacity exactly 1 and the strobe channel is unbuffered (a strobe is a rendezvous with the run loop); (R2) the only send on the signal channel is the non-blocking select in the timer arm (at most one buffered signal, never blocks the loop); " +
 			"(R3, debounce) the strobe arm, on every path, stops the timer, drains a possibly already-fired tick without blocking, and re-arms the timer with the window — so the window is measured from the LAST strobe; the timer is re-armed nowhere else; " +
 			"(R4) Strobe blocks until the loop took the strobe or the coalescer is done: a blocking select over exactly {send strobes, receive done} with no default arm (a strobe is never dropped while the loop is busy); the loop's select has the context, strobe and timer arms and the cancellation arm closes done. " +
+			"(R5) no function of the package receives from the signal channel — a buffered, earned signal is taken out only by the coalescer's user (Terminate does not discard it); " +
 			"Not decided: timing.",
 		Assumptions: []string{"time.Timer semantics (Stop/Reset/C)"},
 		Run:         runC31,
@@ -27,6 +28,7 @@ func init() {
 }
 
 func runC31(c *eng.Ctx) {
+	c31NobodyDrainsSignals(c)
 	ctor := c.MustFunc("R1", statePkg, "NewCoalescer")
 	run := c.MustFunc("R2", statePkg, "Coalescer.run")
 	strobe := c.MustFunc("R4", statePkg, "Coalescer.Strobe")
